@@ -107,9 +107,9 @@ def main():
 
     jobs = []
 
-    def run_cuts(p, lang, infmt, infile, cuts):
+    def run_cuts(p, lang, infmt, infile, cuts, bufsize=1):
         if lang == "cpp":
-            return drivers.cpp_cuts(p.exe, infmt, infile, cuts, bufsize=1)
+            return drivers.cpp_cuts(p.exe, infmt, infile, cuts, bufsize=bufsize)
         return drivers.py_cuts(os.path.join(p.root, "py"), p.pymod, p.proto, infmt, infile, cuts)
 
     # B
@@ -196,6 +196,11 @@ def main():
                 continue
             full, res, se, rc = run_cuts(p, lang, infmt, infile, cuts)
             out.append((kind, p, lang, infmt, len(data), cuts, full, res, rc, se, info, must))
+            if lang == "cpp" and infmt == "binary" and kind == "small-binary":
+                # the same cuts read through the batch path (CopyTo with a buffer of 3 items -> ReadBlocksIntoVector): a cut at a block
+                # boundary of the last stream step must not be taken for the end-of-stream marker
+                full, res, se, rc = run_cuts(p, lang, infmt, infile, cuts, bufsize=3)
+                out.append((kind, p, lang, infmt, len(data), cuts, full, res, rc, se, dict(info, copy_buffer=3), must))
         os.remove(infile)
         return out
 
